@@ -9,12 +9,12 @@ from hypothesis import strategies as st
 from .common import enc
 
 # ---- state name pools -------------------------------------------------------
-POOL_INT = [0, 1, 2, 3, 4]
-POOL_STR = ["q0", "q1", "q2", "q3", "q4"]
-POOL_MIXED = [0, "0", 1, "1", 2]
-POOL_MERGED = ["0", "1", "0;1", "1;2", "2", "0; 1", "1; 0"]
+POOL_INT = list(range(16))
+POOL_STR = ["q%d" % i for i in range(16)]
+POOL_MIXED = [0, "0", 1, "1", 2, "2", 3, "3"]
+POOL_MERGED = ["0", "1", "0;1", "1;2", "2", "0; 1", "1; 0", "0;1;2", "0;2"]
 POOL_RESERVED = ["TRASH", "TrashNode", "Empty", "Start", "0", "star"]
-POOL_TUPLE = [(0, 1), (1, 0), (0,), ("a", 0), ()]
+POOL_TUPLE = [(0, 1), (1, 0), (0,), ("a", 0), (), (1,), (2, 0), (0, 0)]
 POOL_FSET = [frozenset([0]), frozenset([0, 1]), frozenset(), frozenset(["a"]), frozenset([1])]
 POOL_PAIRISH = ["0", "1; 0", "0; 1", "1", "0; 1; 0"]
 
@@ -45,11 +45,22 @@ def pool_strategy(names=None, weights=None):
 @st.composite
 def fa_desc(draw, cls=None, max_states=5, max_trans=12, state_pools=None, sym_pools=None,
             nsyms=None, eps_weight=0.3, allow_extra=True, classes=("enfa", "nfa", "dfa"),
-            max_starts=3, force_syms=None):
+            max_starts=3, force_syms=None, allow_big=True, big_states=(6, 8, 7, 9, 10, 12)):
     c = cls or draw(st.sampled_from(list(classes)))
+    shape = draw(st.sampled_from([0, 0, 0, 0, 1, 0, 2, 0, 0, 0])) if allow_big else 0
+    if shape == 1:
+        return draw(chain_desc(c, force_syms))
+    if shape == 2:
+        return draw(dense_dag_desc(c, force_syms))
     pool_name = draw(st.sampled_from(state_pools or list(STATE_POOLS)))
     pool = STATE_POOLS[pool_name]
-    n = min(draw(st.sampled_from([3, 4, 2, 5, 3, 4, 2, 5, 1])), max_states, len(pool))
+    # one case in six is "big": more states and transitions than the usual bounds (size-dependent code paths)
+    big = draw(st.sampled_from([0, 0, 0, 1, 0, 0])) == 1 if allow_big else False
+    if big:
+        n = min(draw(st.sampled_from(list(big_states))), len(pool))
+        max_trans = max(max_trans + 10, 2 * n + 6)
+    else:
+        n = min(draw(st.sampled_from([3, 4, 2, 5, 3, 4, 2, 5, 1])), max_states, len(pool))
     # a random subset of the pool, not a prefix: name collisions need specific members
     names = draw(st.lists(st.sampled_from(pool), min_size=n, max_size=n, unique_by=repr))
     if force_syms is not None:
@@ -87,6 +98,8 @@ def fa_desc(draw, cls=None, max_states=5, max_trans=12, state_pools=None, sym_po
     d = {"cls": c, "pool": pool_name, "sympool": sym_pool_name,
          "trans": [[enc(p), enc(a), enc(q)] for p, a, q in trans],
          "starts": [enc(s) for s in starts], "finals": [enc(s) for s in finals]}
+    if big:
+        d["big"] = True
     d["how"] = draw(st.sampled_from(["mut", "ctor", "mut"]))
     d["order"] = draw(st.sampled_from(["tsf", "sft", "fts", "stf"]))
     if allow_extra and draw(st.integers(0, 4)) == 0:
@@ -100,6 +113,61 @@ def fa_desc(draw, cls=None, max_states=5, max_trans=12, state_pools=None, sym_po
         if unused:
             d["symbols"] = [enc(unused[0])]
     return d
+
+
+@st.composite
+def chain_desc(draw, c, force_syms=None):
+    """a long chain 0 -> 1 -> ... -> n-1 (mostly epsilon edges for an EpsilonNFA) plus a few extra edges: long epsilon
+    runs and long shortest paths that random dense automata practically never contain"""
+    n = draw(st.sampled_from([6, 7, 10, 14, 11, 15]))
+    names = (POOL_STR if draw(st.booleans()) else POOL_INT)[:n]
+    syms = list(force_syms) if force_syms is not None else ["a", "b"]
+    trans = []
+    for i in range(n - 1):
+        if c == "enfa" and draw(st.integers(0, 9)) < 7:
+            a = None
+        else:
+            a = draw(st.sampled_from(syms))
+        trans.append((names[i], a, names[i + 1]))
+    for _ in range(draw(st.integers(0, 3))):
+        p, q = draw(st.sampled_from(names)), draw(st.sampled_from(names))
+        a = draw(st.sampled_from(syms))
+        t = (p, a, q)
+        if t not in trans and not (c == "dfa" and any(x[0] == p and x[1] == a for x in trans)):
+            trans.append(t)
+    finals = [names[-1]] + ([draw(st.sampled_from(names))] if draw(st.booleans()) else [])
+    finals = [f for i, f in enumerate(finals) if f not in finals[:i]]
+    return {"cls": c, "pool": "chain", "sympool": "forced" if force_syms is not None else "abc", "big": True,
+            "trans": [[enc(p), enc(a), enc(q)] for p, a, q in trans], "starts": [enc(names[0])],
+            "finals": [enc(f) for f in finals], "how": "mut", "order": "tsf"}
+
+
+@st.composite
+def dense_dag_desc(draw, c, force_syms=None):
+    """a dense acyclic graph (every state has many predecessors and successors): fan-out / fan-in shapes that make
+    work-list algorithms queue the same state many times; state names are shuffled so that visiting orders vary"""
+    n = draw(st.sampled_from([6, 7, 8, 6]))
+    pool = POOL_STR if draw(st.booleans()) else POOL_INT
+    names = draw(st.permutations(pool[:n]))
+    syms = list(force_syms) if force_syms is not None else ["a", "b", "c"]
+    trans = []
+    used = set()
+    for i in range(n):
+        for j in range(i + 1, n):
+            if draw(st.integers(0, 9)) < 7:
+                a = draw(st.sampled_from(syms + ([None] if c == "enfa" else [])))
+                if c == "dfa":
+                    free = [x for x in syms if (i, x) not in used]
+                    if not free:
+                        continue
+                    a = free[0]
+                used.add((i, a))
+                trans.append((names[i], a, names[j]))
+    starts = [names[0]] + ([names[1]] if c != "dfa" and draw(st.booleans()) else [])
+    finals = [draw(st.sampled_from(list(names)))]
+    return {"cls": c, "pool": "dense_dag", "sympool": "forced" if force_syms is not None else "abc", "big": True,
+            "trans": [[enc(p), enc(a), enc(q)] for p, a, q in trans], "starts": [enc(x) for x in starts],
+            "finals": [enc(f) for f in finals], "how": "mut", "order": "tsf"}
 
 
 def alphabet_of(d):
